@@ -53,6 +53,9 @@ func (u *Unit) Run() {
 	u.topEntry = entry
 	env := u.contractEnv(st, fr, u.contract, fr.params, fr.bind, nil, entry)
 	for _, c := range u.contract.Requires {
+		if strings.HasPrefix(c.Label, "creator") {
+			continue // checked where the closure is created; speaks about the creator's locals
+		}
 		if err := u.assumeClause(st, env, c.Expr); err != nil {
 			u.fail(fmt.Sprintf("%s: requires %q: %v", c.Where, c.Src, err))
 			continue
@@ -142,8 +145,10 @@ func (u *Unit) coverBlock(st *State, fr *Frame, b *ssa.BasicBlock) {
 	}
 	if txt := u.contract.Opts["dead-ok"]; txt != "" && pos.IsValid() {
 		// code that is provably unreachable (defensive guards) is declared as such in the contract
-		if strings.Contains(u.eng.sourceLine(pos), txt) {
-			return
+		for _, part := range strings.Split(txt, ";") {
+			if part = strings.TrimSpace(part); part != "" && strings.Contains(u.eng.sourceLine(pos), part) {
+				return
+			}
 		}
 	}
 	u.obls = append(u.obls, &Obligation{Name: fmt.Sprintf("%s/cover-block#%d", u.name, b.Index), Kind: "cover", Func: u.name, Props: u.contract.Props,
